@@ -158,6 +158,52 @@ def ref_eval(a, env):
     raise ValueError(k)
 
 
+def str_bound_ok(a, env, cap=1 << 18):
+    """conservative screen for expressions on str operands: False when a str repetition could exceed `cap` characters
+    (Python would need gigabytes; neither the implementation nor the model is run on such a case)"""
+    def go(x):
+        k = x[0]
+        if k == "L":
+            return ("i", x[1])
+        if k == "V":
+            v = env.get(x[1])
+            return ("i", abs(v)) if isinstance(v, int) else ("s", len(v) if isinstance(v, str) else len(x[1]))
+        if k == "A":
+            return go(x[1])
+        if k == "D":
+            return ("i", 1)
+        if k in ("N", "P", "!"):
+            r = go(x[1])
+            return r if k != "!" else ("i", 1)
+        if k == "Z":
+            return ("i", 1 << 32)
+        l, r = go(x[2]), go(x[3])
+        op = x[1]
+        if k == "C":
+            if op in ("&&", "||"):
+                return l if l[1] >= r[1] or l[0] == "s" else r
+            return ("i", 1)
+        if l[0] == "s" or r[0] == "s":
+            if op == "*":
+                n = l[1] * r[1]
+                if n > cap:
+                    raise Huge()
+                return ("s", n)
+            return ("s", l[1] + r[1])
+        if op in ("<<",):
+            if r[1] > 64:
+                return ("i", 1 << 70)
+            return ("i", l[1] << r[1])
+        if op == "*":
+            return ("i", l[1] * r[1])
+        return ("i", max(l[1], r[1]) * 2 + 1)
+    try:
+        go(a)
+        return True
+    except Huge:
+        return False
+
+
 def ref_canon(a, env):
     try:
         v = ref_eval(a, env)
@@ -891,10 +937,12 @@ def run(ck):
     if drv is None:
         run_oracle_only(ck, real)
         return
-    expr_streams(ck, real, drv, rng)
-    lexer_stream(ck, real, drv, rng)
-    duplicate_stream(ck, real, drv, rng)
-    program_streams(ck, real, drv, rng)
+    for fn in (expr_streams, lexer_stream, duplicate_stream, program_streams):
+        try:
+            fn(ck, real, drv, rng)
+        except Exception as exc:  # noqa: BLE001
+            print("C19: stream group %s stopped: %s: %s (driver rc=%s)" % (fn.__name__, type(exc).__name__, exc, drv.proc.poll()), file=sys.stderr)
+            raise
 
 
 def run_oracle_only(ck, real):
@@ -1111,6 +1159,9 @@ def expr_streams(ck, real, drv, rng):
                 continue
             except StrOp:
                 # an operation on a str (undefined identifier): modelled, but no oracle here (see stream undefined_ident)
+                if not str_bound_ok(unwire(pw.split(" ")), env):
+                    s.note(t, nontrivial=False, cls="huge-str-skipped")
+                    continue
                 pw = "E"
             except RefErr:
                 pass
@@ -1153,6 +1204,9 @@ def expr_streams(ck, real, drv, rng):
                 continue
             except StrOp:
                 # an operation on a str (undefined identifier): modelled, but no oracle here (see stream undefined_ident)
+                if not str_bound_ok(unwire(pw.split(" ")), env):
+                    s.note(t, nontrivial=False, cls="huge-str-skipped")
+                    continue
                 pw = "E"
             except RefErr:
                 pass
